@@ -44,7 +44,7 @@
 (* the harness compares the semantic classes with those of the real        *)
 (* lowered objects.                                                        *)
 (***************************************************************************)
-EXTENDS Integers, Sequences, FiniteSets, FiniteSetsExt, SequencesExt, TLC, Json, CQ, ArityRules
+EXTENDS Integers, Sequences, FiniteSets, FiniteSetsExt, SequencesExt, TLC, Json, Randomization, CQ, ArityRules
 
 CONSTANTS
   Terminals,       \* sequence of [nm, sh, num (argument number or -1), wrap ("none","grad","rval","rgrad")]
@@ -417,19 +417,19 @@ Next ==
 
 Spec == Init /\ [][Next]_vars
 
-\* For -simulate: ONE random constructor call per step (computing every successor of a state just
-\* to pick one is far too expensive here).  Operands are biased towards the nodes built last so
-\* that programs stay connected.
-Pick(S) == {RandomElement(S)}
+\* For -simulate: a few random constructor calls per step, of which TLC takes one that is enabled
+\* (computing every successor of a state just to pick one is far too expensive here).  Operands
+\* are biased towards the nodes built last so that programs stay connected.
+Some(k, S) == RandomSubset(IF Cardinality(S) < k THEN Cardinality(S) ELSE k, S)
 SimNext ==
   /\ Room /\ sl' = sl
-  /\ \E op \in Pick(OpSet) : \E x \in Pick(Ids) : \E y \in Pick(Ids) : \E k \in Pick(Ids) : \E coin \in Pick(1..4) :
+  /\ \E op \in Some(3, OpSet) : \E x \in Some(2, Ids) : \E y \in Some(2, Ids) : \E coin \in Some(2, 1..4) :
        LET n == Len(store)
-           a == IF coin <= 2 THEN n ELSE x
-           b == IF coin = 2 /\ n - 1 > NInit THEN n - 1 ELSE IF coin = 3 THEN n ELSE y IN
+           a == IF coin <= 2 /\ n > NInit THEN n ELSE x
+           b == IF coin = 2 /\ n - 1 > NInit THEN n - 1 ELSE IF coin = 3 /\ n > NInit THEN n ELSE y IN
        \/ Unary(op, a)
        \/ Binary(op, a, b)
-       \/ Ternary(op, a, b, k)
+       \/ \E k \in Some(1, Ids) : Ternary(op, a, b, k)
 SimSpec == Init /\ [][SimNext]_vars
 
 
